@@ -571,7 +571,13 @@ def clsref(name):
     import importlib
     for m in (importlib.import_module('pane.convert'), importlib.import_module('pane.classes'), importlib.import_module('pane.converters')):
         if hasattr(m, name):
-            return getattr(m, name)
+            o = getattr(m, name)
+            if isinstance(o, type(importlib)) and hasattr(o, name):   # module datetime -> class datetime.datetime
+                return getattr(o, name)
+            return o
+    import datetime as _dt
+    if name in ('date', 'time', 'datetime'):
+        return getattr(_dt, name)
     return UNDEF
 
 
